@@ -5,5 +5,6 @@ import (
 	_ "verif/harness/checks/c01"
 	_ "verif/harness/checks/c02"
 	_ "verif/harness/checks/c03"
+	_ "verif/harness/checks/c09"
 	_ "verif/harness/checks/c10"
 )
